@@ -275,7 +275,3 @@ class VIndexArray(ArrayExpr):
                 )
 
         return dsk
-
-    def __dask_keys__(self):
-        # Override to return 1D keys since we reshape after
-        return [(self._name,) + idx for idx in np.ndindex(tuple(len(c) for c in self.chunks))]
